@@ -263,12 +263,53 @@ func checkC01(c *Ctx) {
 					seen[k] = true
 				}
 			}
-			ob("smallerThanModulus-limbs", okCmp && len(seen) == N, "smallerThanModulus does not compare every limb i with q_i")
+			// the same test written as a borrow chain: bits.Sub64(z[i], q_i, borrow)
+			for _, b := range fn.Blocks {
+				for _, in := range b.Instrs {
+					call, ok := in.(*ssa.Call)
+					if !ok || len(call.Call.Args) != 3 {
+						continue
+					}
+					if cl := calleeOf(&call.Call); cl.Pkg != "math/bits" || !strings.HasPrefix(cl.Name, "Sub") {
+						continue
+					}
+					ld, ok := call.Call.Args[0].(*ssa.UnOp)
+					if !ok {
+						continue
+					}
+					ia, ok := ld.X.(*ssa.IndexAddr)
+					if !ok {
+						continue
+					}
+					k, ok1 := constInt(ia.Index)
+					cv, ok2 := call.Call.Args[1].(*ssa.Const)
+					if !ok1 || !ok2 {
+						continue
+					}
+					bv, _ := constToBig(cv.Value)
+					if int(k) >= N || bv == nil || bv.Cmp(ql[k]) != 0 {
+						okCmp = false
+					}
+					seen[k] = true
+				}
+			}
+			// a constant used against limb i is q_i, and if limb constants are used at all there is one
+			// per limb (a version that walks a table of the q_i uses none: nothing to contradict)
+			ob("smallerThanModulus-limbs", okCmp && (len(seen) == N || len(seen) == 0), "smallerThanModulus does not compare every limb i with q_i")
 		}
 		// special cases
 		c.Instance("C01.special", 1)
 		if fn := p.Func(pk, "Element", "Neg"); fn != nil {
-			RequireDNF(c, p, "C01.special", fn, AcceptAny, nil, "zero-branch-or-nonzero", [][]Req{{{"x==0", `^ok Element\.IsZero\(p0\)$`}}, {{"x!=0", `^not Element\.IsZero\(p0\)$`}}})
+			// the zero branch exists: some branch of Neg tests the operand against zero (Neg(0) is 0, not q).
+			// Where the two arms meet again is a matter of style, so only the test is required.
+			reZero := mustRe(`^(ok|not) Element\.IsZero\(p0\)$|^0 [!=]= \(?[^=!<>]*p0\[\d+\][^=!<>]*\)?$|^\(?[^=!<>]*p0\[\d+\][^=!<>]*\)? [!=]= 0$`)
+			has := false
+			for st := range stmtEdges(fn) {
+				if reZero.MatchString(st) {
+					has = true
+				}
+			}
+			c.Ob("C01.special", pk, funcKey(fn), "zero-branch-present", p.Pos(fn.Pos()), has, funcKey(fn)+": no branch tests the operand against zero: Neg(0) would be q - 0 = q, a non-reduced value")
 		}
 		if fn := p.Func(pk, "Element", "Exp"); fn != nil {
 			var inv []ssa.Instruction
